@@ -21,11 +21,8 @@ theorem ref_refines (hV : Valid P) : FpRefines (Ref.ops P) P.p (fun a => a < P.p
   sqrt := fun ha => fp_sqrt_spec hV ha
   isSquare := by
     intro a ha
-    refine ⟨?_, fun hne => (fp_is_square_spec_partial hV ha hne).1⟩
-    show Ref.fp_is_square P a = 0 ∨ Ref.fp_is_square P a = T32
-    unfold Ref.fp_is_square Ref.fp_is_equal
-    simp only []
-    split <;> simp
+    obtain ⟨h1, h2⟩ := fp_is_square_spec hV ha
+    exact ⟨h2, fun _ => h1⟩
   isZero := by
     intro a ha
     obtain ⟨h1, h2⟩ := fp_is_zero_spec hV ha
